@@ -63,6 +63,60 @@ Theorem C14_utxo_clearing_refuted :
   exists a b c, merge_map_with xpub_take_arm_guarded pset_input_merge a b = Val c /\ unk a (fld "non_witness_utxo") <> None /\ unk c (fld "non_witness_utxo") = None.
 Proof. apply (clears_witness _ _ (fld "witness_utxo")). vm_compute. reflexivity. Qed.
 
+(* ------------------------------------------------------------------ order independence *)
+(* Operands in the property's domain: descendants of a common ancestor by disjoint-or-identical additions are `compat`
+   (C14_descendants_compat).  `pset_pair_ok` asks, for the global maps and position-wise for inputs and outputs: key-sorted maps,
+   compat, and the negations of the two Known classes —
+     agree_unmerged : the operands do not differ in a field the table does not merge           (class F3-*-dropped)
+     quiet          : no clearing statement fires (witness_utxo arriving next to none)         (class F3-witness-utxo-clears-non-witness-utxo)
+   Then both merge orders succeed and give the same PSET (field-wise equal values and equal key-value lists). *)
+Theorem C14_commutes : forall (id : Type) (id_eqb : id -> id -> bool) (uid : pset -> outcome id) a b x y,
+  uid a = Val x -> uid b = Val y -> id_eqb x y = true -> id_eqb y x = true -> pset_pair_ok cur_tables a b ->
+  exists c c', merge id_eqb uid a b = Val c /\ merge id_eqb uid b a = Val c' /\ pset_equiv c c'.
+Proof. intros. apply (merge_commutes id_eqb uid cur_tables a b x y); auto. Qed.
+Theorem C14_descendants_compat : forall o a b, extends o a -> extends o b -> additions_agree o a b -> compat a b.
+Proof. exact descendants_compat. Qed.
+(* without the restriction the statement is false: F3 (a descendant that added `sequence`) and the utxo clearing make the result
+   depend on the order — witnesses at one input map *)
+Theorem C14_commutes_refuted : exists a b c c',
+  wf_map a /\ wf_map b /\ compat a b /\
+  merge_map_with xpub_take_arm_guarded pset_input_merge a b = Val c /\ merge_map_with xpub_take_arm_guarded pset_input_merge b a = Val c' /\
+  unk c (fld "sequence") <> unk c' (fld "sequence").
+Proof.
+  exists empty_map, (set_unk empty_map (fld "sequence") (Some [x01; x00; x00; x00])).
+  eexists. eexists. split; [intros f; reflexivity|]. split; [intros f; reflexivity|]. split; [split; cbn; intros; discriminate|].
+  split; [vm_compute; reflexivity|]. split; [vm_compute; reflexivity|]. vm_compute. discriminate.
+Qed.
+(* non-vacuity: two different descendants satisfying every hypothesis of C14_commutes at an input position *)
+Example C14_pair_ok_nonvacuous :
+  pair_ok pset_input_merge (set_unk empty_map (fld "redeem_script") (Some [x51])) (set_kyd empty_map (fld "partial_sigs") [([x02], [x30])]).
+Proof.
+  assert (forall cl, policy_of pset_input_merge (fld "redeem_script") <> MP_FirstWinsClearing cl) as NC by (intros cl; vm_compute; discriminate).
+  constructor.
+  - intros f. reflexivity.
+  - intros f. cbn. destruct (bytes_eqb f _); reflexivity.
+  - split; cbn; intros; try discriminate.
+  - intros f. split.
+    + intros K. unfold set_unk, set_kyd, empty_map. cbn [unk kyd].
+      destruct (bytes_eqb f (fld "redeem_script")) eqn:E; [apply bytes_eqb_eq in E; subst; vm_compute in K; discriminate|reflexivity].
+    + intros K. unfold set_unk, set_kyd, empty_map. cbn [unk kyd].
+      destruct (bytes_eqb f (fld "partial_sigs")) eqn:E; [apply bytes_eqb_eq in E; subst; vm_compute in K; discriminate|reflexivity].
+  - intros f cl I _. reflexivity.
+  - intros f cl I _. unfold set_unk, set_kyd, empty_map. cbn [unk kyd].
+    destruct (bytes_eqb f (fld "redeem_script")) eqn:E; [|reflexivity]. apply bytes_eqb_eq in E. subst.
+    exfalso. apply (NC cl). apply In_policy_of; [vm_compute; reflexivity|exact I].
+Qed.
+
+(* FULL STATEMENT, not yet proved (kept visible): any order and grouping of a family.
+   Theorem C14_family : forall id id_eqb uid (t t' : mtree) x,
+     Permutation (leaves t) (leaves t') ->
+     (forall p, In p (leaves t) -> uid p = Val x) -> id_eqb x x = true ->
+     (forall p q, In p (leaves t) -> In q (leaves t) -> pset_pair_ok cur_tables p q) ->
+     (forall p q, In p (leaves t) -> In q (leaves t) -> required lock times of p and q agree at every input) ->
+     exists c c', eval_tree id_eqb uid t = Val c /\ eval_tree id_eqb uid t' = Val c' /\ pset_equiv c c'.
+   Proved so far: the two-member case in both orders (C14_commutes).  Larger families are covered only by the correspondence run
+   (every permutation and grouping of 2..4 descendants is merged on the implementation and on the model and all results compared). *)
+
 (* ------------------------------------------------------------------ xpub key-source reconciliation *)
 (* outside the two known classes the code does what its comment documents, and in particular never panics; v1 is the source
    arriving from `other`, v2 the one in `self` *)
@@ -96,7 +150,11 @@ Check (C14_keeps_all : forall (id : Type) (id_eqb : id -> id -> bool) (uid : pse
 Check (C14_xpub : forall v1 v2,
   known_F2 xpub_take_arm_guarded v1 v2 = false -> known_F4 xpub_take_arm_guarded v1 v2 = false ->
   reconcile v1 v2 = reconcile_doc v1 v2 /\ reconcile v1 v2 <> XPanic).
+Check (C14_commutes : forall (id : Type) (id_eqb : id -> id -> bool) (uid : pset -> outcome id) a b x y,
+  uid a = Val x -> uid b = Val y -> id_eqb x y = true -> id_eqb y x = true -> pset_pair_ok cur_tables a b ->
+  exists c c', merge id_eqb uid a b = Val c /\ merge id_eqb uid b a = Val c' /\ pset_equiv c c').
 Print Assumptions C14_gate.
+Print Assumptions C14_commutes.
 Print Assumptions C14_keeps_all.
 Print Assumptions C14_keeps_all_refuted.
 Print Assumptions C14_xpub.
